@@ -454,6 +454,70 @@ pub fn worker(w: &mut Worker) {
         }
     }
 
+    // Phase E: the same for files: a file of documented lines parses to its instructions (each with its
+    // line number and the file as source) whatever happened on this thread before - in particular after
+    // parse_file of this very path failed because the file was missing, was a directory, was not text,
+    // or included a file that was missing
+    {
+        let dir = w.scratch.join("c01-files");
+        let _ = std::fs::remove_dir_all(&dir);
+        let _ = std::fs::create_dir_all(&dir);
+        let dir = std::fs::canonicalize(&dir).unwrap_or(dir);
+        for before in ["missing", "directory", "not-text", "includes-missing", "malformed", "nothing"] {
+            for (k, (text, _)) in line_pool.iter().enumerate() {
+                if !w.take() {
+                    continue;
+                }
+                let cj = json!({"kind": "file-after-failed-read", "before": before, "text": text});
+                w.begin(|| cj.clone());
+                let path = dir.join(format!("{}-{}.ds", before, k));
+                let ps = path.to_string_lossy().to_string();
+                let _ = std::fs::remove_file(&path);
+                let _ = std::fs::remove_dir_all(&path);
+                match before {
+                    "directory" => {
+                        let _ = std::fs::create_dir_all(&path);
+                    }
+                    "not-text" => {
+                        let _ = std::fs::write(&path, [0xffu8, 0xfe, 0x00, 0xc3]);
+                    }
+                    "includes-missing" => {
+                        let _ = std::fs::write(&path, format!("!include_files {}/no-such-file.ds\n", dir.to_string_lossy()));
+                    }
+                    "malformed" => {
+                        let _ = std::fs::write(&path, "cmd \"abc\n");
+                    }
+                    _ => (),
+                }
+                let first = if before == "nothing" { Ok(Ok(vec![])) } else { guarded(|| parser::parse_file(&ps)) };
+                let _ = std::fs::remove_dir_all(&path);
+                let content = format!("{}\nlast = set line", text);
+                let _ = std::fs::write(&path, &content);
+                let second = guarded(|| parser::parse_file(&ps));
+                let _ = std::fs::remove_file(&path);
+                let n = content.lines().count();
+                let verdict = match (first, second) {
+                    (Err(p), _) | (_, Err(p)) => Err(("panic".to_string(), format!("parse_file panicked: {}", p))),
+                    (Ok(Ok(v)), _) if before != "nothing" => Err(("harness".to_string(), format!("the first parse_file ({}) was expected to fail, gave {} instructions", before, v.len()))),
+                    (_, Ok(Err(e))) => Err((format!("file-after-failed-read:rejected:{}", err_kind(&e)), format!("after parse_file of the same path failed ({}), the file {:?} is rejected: {}", before, content, e))),
+                    (_, Ok(Ok(v))) => {
+                        let lines_ok = v.iter().enumerate().all(|(i, ins)| ins.meta_info.line == Some(i + 1) && ins.meta_info.source.as_deref().map(|s| s.ends_with(&format!("{}-{}.ds", before, k))).unwrap_or(false));
+                        if v.len() != n || !lines_ok {
+                            Err(("file-after-failed-read:differs".to_string(), format!("after parse_file of the same path failed ({}), the file {:?} parses to {} instructions (lines and sources right: {})", before, content, v.len(), lines_ok)))
+                        } else {
+                            Ok(())
+                        }
+                    }
+                };
+                match verdict {
+                    Ok(()) => w.pass(true, hash64(&("file-after-failed-read", before))),
+                    Err((sig, what)) => w.fail(&sig, &what, cj),
+                }
+            }
+        }
+        let _ = std::fs::remove_dir_all(&dir);
+    }
+
     let nmax = tier.pick(3usize, 4usize);
     let idxs: Vec<usize> = (0..line_pool.len()).collect();
     for seq in Strings::new(&idxs[..], 1, nmax) {
@@ -508,6 +572,9 @@ pub fn worker(w: &mut Worker) {
 }
 
 pub fn replay(case: &Value) -> Result<String, String> {
+    if case["kind"].as_str() == Some("file-after-failed-read") {
+        return Ok("re-run the check: the case needs the files of the run's scratch directory (a failed parse_file followed by a parse_file of the same path on one thread)".to_string());
+    }
     let text = case["text"].as_str().ok_or("no text")?.to_string();
     if let Some(rejected) = case["rejected"].as_str() {
         // the same thread parses the rejected text first
@@ -525,7 +592,7 @@ pub fn crash_sig(_case: &Value, kind: &str) -> String {
     kind.to_string()
 }
 
-pub const RULE: &str = "enumeration (no duplicates by construction): A) every instruction shape (label x output x command, 64, names with dots, '::', '-', '_', digits and non-ASCII letters) x every rendering style (quote-when-optional, 1|3 separator spaces, 3 leads, 6 trails incl. comments, 4 '=' spacings) x 17 argument lists (up to 8 arguments); B) every argument string up to the length bound over the 16-character alphabet {a n SP \" \\ # = : $ { % TAB LF CR NBSP e-acute}; a TAB inside an argument is written both as \\t and raw, as 1, 2 and 3 arguments, and (strings up to length 3, thorough 4) as the first, middle or last of 4, 6 and 9 arguments, x 3 shapes x 16 styles; D) every line of that pool parsed right after each of six rejected texts on the same thread (what a failed parse leaves behind must not reach the next one); C) every script of up to n lines from a pool of 12 lines x LF/CRLF x final line break. Oracle: parse_text(render(i)) == i. A case is non-trivial when a label or output is present or an argument needs quoting or escaping; states = distinct outcome classes (shape, argument count, character classes per argument), transitions = parse_text calls Phase B3: 413 single characters (printable ASCII, upper Latin-1, every Unicode white-space character, the characters of eight other planes that share the low byte of a syntax character) x ten argument positions (alone, leading, trailing, inside, next to a blank, doubled, between plain arguments) x 3 line shapes x 6 styles, and inside command, label and output names";
+pub const RULE: &str = "enumeration (no duplicates by construction): A) every instruction shape (label x output x command, 64, names with dots, '::', '-', '_', digits and non-ASCII letters) x every rendering style (quote-when-optional, 1|3 separator spaces, 3 leads, 6 trails incl. comments, 4 '=' spacings) x 17 argument lists (up to 8 arguments); B) every argument string up to the length bound over the 16-character alphabet {a n SP \" \\ # = : $ { % TAB LF CR NBSP e-acute}; a TAB inside an argument is written both as \\t and raw, as 1, 2 and 3 arguments, and (strings up to length 3, thorough 4) as the first, middle or last of 4, 6 and 9 arguments, x 3 shapes x 16 styles; D) every line of that pool parsed right after each of six rejected texts on the same thread (what a failed parse leaves behind must not reach the next one); C) every script of up to n lines from a pool of 12 lines x LF/CRLF x final line break. Oracle: parse_text(render(i)) == i. A case is non-trivial when a label or output is present or an argument needs quoting or escaping; states = distinct outcome classes (shape, argument count, character classes per argument), transitions = parse_text calls Phase B3: 413 single characters (printable ASCII, upper Latin-1, every Unicode white-space character, the characters of eight other planes that share the low byte of a syntax character) x ten argument positions (alone, leading, trailing, inside, next to a blank, doubled, between plain arguments) x 3 line shapes x 6 styles, and inside command, label and output names. Phase E: a file of documented lines (12 lines) parsed with parse_file right after parse_file of the same path failed on this thread (missing, a directory, not text, includes a missing file, malformed) or after nothing: n lines give n instructions with their line numbers and the file as source";
 pub const ASSUMPTIONS: &[&str] = &["characters outside the alphabet behave like 'a' or 'e-acute' (the scanner has no other special characters)", "names are restricted to the listed labels/outputs/commands"];
 pub const EXHAUSTIVE: bool = true;
 pub const WALL_CAP_S: (u64, u64) = (50, 1500);
